@@ -10,7 +10,8 @@ LEVEL = 'fault_enumeration'
 MODE = 'thread'
 RULE = ('scenarios = {regeneration triggered by a build.bfg edit, a new file matching a '
         'find_files pattern, a removed file, an options.bfg edit, a toolchain edit; a fresh '
-        'configure} x back end {make, reference ninja} x {with, without pkg_config() immediate '
+        'configure; a second configure of the existing build directory with another --prefix; '
+        'a plain `bfg9000 regenerate` with nothing changed} x back end {make, reference ninja} x {with, without pkg_config() immediate '
         'files}; for each scenario the uninterrupted run is traced (out-of-tree audit-hook tracer) '
         'and EVERY mutation boundary k of that run (before/after open-for-write, before/after '
         'close, remove, utime, mkdir) is replayed from a restored tree copy with os._exit(137) at k '
@@ -32,7 +33,11 @@ EXTRA_COVERAGE = {'exhaustive': True,
                                       'of the traced uninterrupted run'}
 PRIMARY = {'make': 'Makefile', 'ninja': 'build.ninja'}
 SCENARIOS = ['edit-bfg', 'new-file', 'removed-file', 'edit-options', 'edit-toolchain',
-             'fresh-configure', 'script-raises']
+             'fresh-configure', 'script-raises', 'reconfigure', 'explicit-regenerate']
+# scenarios whose interrupted run is a bfg9000 command the user types (not one the back end
+# starts): a second `configure` of an existing build directory with other options, and a
+# plain `regenerate` while nothing has changed
+CLI_SCENARIOS = ('reconfigure', 'explicit-regenerate')
 NCHUNK = 6
 
 
@@ -43,10 +48,13 @@ def floors(tier):
 
 
 def cases(tier, seed):
-    scen = ['edit-bfg', 'new-file', 'script-raises'] if tier == 'quick' else SCENARIOS
+    scen = ['edit-bfg', 'new-file', 'script-raises', 'reconfigure', 'explicit-regenerate'] \
+        if tier == 'quick' else SCENARIOS
     pk = [True] if tier == 'quick' else [True, False]
     for s in scen:
         for backend in ('make', 'ninja'):
+            if tier == 'quick' and s == 'explicit-regenerate' and backend == 'ninja':
+                continue      # (the immediate-file writer is shared by the back ends)
             for pkgconf in pk:
                 nchunk = 1 if s == 'script-raises' else NCHUNK
                 forms = [None]
@@ -69,6 +77,8 @@ def cases(tier, seed):
                                       'window' if backend == 'make' else None)
                            if s in ('new-file', 'removed-file') else None,
                            'partial': tier == 'thorough',
+                           # (quick: the user-typed commands get the kill points only)
+                           'only_crash': tier == 'quick' and s in CLI_SCENARIOS,
                            'io_errors': 'all' if tier == 'thorough' else 'enospc',
                            'raise_kinds':
                            ['ENOSPC', 'RuntimeError', 'KeyboardInterrupt']
@@ -129,9 +139,19 @@ class World:
             e['BFG9000_VERIF_' + k] = str(v)
         return e
 
-    def configure(self, env=None):
-        return proj.configure(self.src, self.bld, self.backend, args=self.conf_args,
+    def configure(self, env=None, args=None):
+        return proj.configure(self.src, self.bld, self.backend, args=args or self.conf_args,
                               env=env or self.plain_env)
+
+    def reconfigure(self, env=None):
+        """`bfg9000 configure` of the existing build directory with another prefix."""
+        return self.configure(env=env, args=self.conf_args[:2] +
+                              ['--prefix', os.path.join(self.root, 'other prefix')])
+
+    def regenerate(self, env=None):
+        proj.settle()
+        return core.run([os.path.join(core.VENV_BIN, 'bfg9000'), 'regenerate', self.bld],
+                        cwd=self.src, env=env or self.plain_env, timeout=180)
 
     def backend_run(self, env=None):
         proj.settle()
@@ -267,6 +287,10 @@ def run_case(case):
         def interrupted_run(env):
             if fresh:
                 return w.configure(env=env)
+            if scenario == 'reconfigure':
+                return w.reconfigure(env=env)
+            if scenario == 'explicit-regenerate':
+                return w.regenerate(env=env)
             return w.backend_run(env=env)
 
         # ---- the uninterrupted run (count mode)
@@ -331,10 +355,21 @@ def run_case(case):
             half = any(after_fault.get(n) not in (old.get(n), good.get(n))
                        for n in set(good) | set(old))
             res.key(key, half or nontrivial_hint)
+            # a second configure that died before it saved the new configuration has changed
+            # nothing: the build directory then consistently describes the old configuration,
+            # and staying there is right.  Only once .bfg_environ holds the new configuration
+            # must the build files follow it.
+            env_state = state_of(after_aux.get('.bfg_environ'), old_aux.get('.bfg_environ'),
+                                 good_aux.get('.bfg_environ'))
+            st['environ'] = env_state
             for attempt in (1, 2):
                 rc, out = w.backend_run()
                 res.ev('followups:judged')
                 now = w.files()
+                if scenario == 'reconfigure' and rc == 0 and now == old and \
+                   env_state != 'new' and w.aux().get('.bfg_environ') != good_aux.get('.bfg_environ'):
+                    res.ev('reconfigure:died-before-saving-the-configuration')
+                    return st
                 if rc == 0 and now != good:
                     bad = sorted(n for n in set(now) | set(good) if now.get(n) != good.get(n))
                     from .c08 import order_only
@@ -356,6 +391,8 @@ def run_case(case):
                         cause = 'find-deps-truncated'
                     else:
                         cause = 'state:primary=%(primary)s,cache=%(find_cache)s,deps=%(find_deps)s' % st
+                        if scenario == 'reconfigure':
+                            cause += ',environ=' + env_state
                     res.violate((backend, 'silent-stale', cause) +
                                 (('after-two-faults',) if label.startswith('double') else ()),
                                 dict(wb, kind=label, fault=fault_desc, state_after_fault=st,
@@ -420,7 +457,7 @@ def run_case(case):
                                    [scenario, backend, case['pkgconf']] + d2, True)
         # ---- I/O error failpoints of this chunk: the operation at a 'before' boundary fails
         # (ENOSPC on open / close / replace ..., EACCES on open) and the error reaches bfg9000
-        for k in ks:
+        for k in ([] if case.get('only_crash') else ks):
             ev = next(e for e in bounds if e['n'] == k)
             if ev['phase'] != 'before':
                 continue
@@ -430,6 +467,8 @@ def run_case(case):
                 w.restore()
                 if fresh:
                     rc, out = w.configure(env=w.env(CRASH_AT=k, FAULT=errname))
+                elif scenario == 'reconfigure':
+                    rc, out = w.reconfigure(env=w.env(CRASH_AT=k, FAULT=errname))
                 else:
                     # the documented command itself, so that its own exit status is seen (a
                     # back end would simply run a regeneration that "succeeded" again)
@@ -458,7 +497,7 @@ def run_case(case):
                 follow_ups('io-error', desc, [scenario, backend, case['pkgconf']] + desc, True)
         # ---- exception failpoints of this chunk
         hs = [h for h in range(1, H + 1) if h % case['nchunk'] == case['chunk']]
-        for h in hs:
+        for h in ([] if case.get('only_crash') else hs):
             hv = next(e for e in hooks if e['hook_n'] == h)
             for kind in case['raise_kinds']:
                 w.restore()
